@@ -277,7 +277,7 @@ def shard_subclass(shard):
                     sig = SIG_F3A          # deviation model: always True for a mesh `other`
                 else:
                     # deviation model: True iff no basis element of other is itself a member of self
-                    dev = all(tuple(x[1]) not in lv[i][len(x[1])] for x in pool[j])
+                    dev = all(b not in lv[i][len(b)] for b in _minimal_classical(pool[j]))
                     sig = SIG_F3B if dev else None
                 part.violation("subclass", case, {"expected": False, "got": True,
                                                   "witness": _witness(lv[i], lv[j])}, sig=sig)
@@ -292,6 +292,17 @@ def shard_subclass(shard):
                     if not refuted else None
             part.add(1, 1 if refuted else 0)
     return part
+
+
+def _minimal_classical(descs):
+    """Minimal elements (under classical containment) of a list of classical descriptors - what
+    the basis of the class is, by definition."""
+    ps = sorted({tuple(d[1]) for d in descs}, key=lambda p: (len(p), p))
+    out = []
+    for p in ps:
+        if not any(R.contains(p, q) for q in out):
+            out.append(p)
+    return out
 
 
 def _witness(la, lb):
@@ -412,8 +423,8 @@ class ClassHistory:
                         if self.mesh[op[2]]:
                             sig = SIG_F3A
                         else:
-                            dev = all(tuple(x[1]) not in self.lv[op[1]][len(x[1])]
-                                      for x in self.b[op[2]])
+                            dev = all(b not in self.lv[op[1]][len(b)]
+                                      for b in _minimal_classical(self.b[op[2]]))
                             sig = SIG_F3B if dev else None
                         v = {"op": op, "expected": False, "got": True, "_sig": sig}
                 elif kind == "clear":
